@@ -311,14 +311,11 @@ func (p *Poly) render(trunc bool) string {
 	if len(p.terms) == 0 {
 		return "0"
 	}
-	var ms []string
-	for m := range p.terms {
-		ms = append(ms, string(m))
-	}
-	sort.Strings(ms)
-	var sb strings.Builder
-	for i, m := range ms {
-		c := p.terms[mono(m)]
+	// The rendering is canonical: it depends on the variables' NAMES only, never on the order in which a ring
+	// happened to create them (two computations of the same polynomial that introduce their carry symbols in a
+	// different order must print — and digest — identically).
+	var ts []string
+	for m, c := range p.terms {
 		cs := c.String()
 		if p.R.Mod != nil {
 			// print small negatives readably
@@ -327,23 +324,41 @@ func (p *Poly) render(trunc bool) string {
 				cs = new(big.Int).Sub(c, p.R.Mod).String()
 			}
 		}
-		if i > 0 {
-			sb.WriteString(" + ")
-		}
 		var vs []string
-		for _, f := range parseMono(mono(m)) {
+		for _, f := range parseMono(m) {
 			if f.exp == 1 {
 				vs = append(vs, p.R.names[f.id])
 			} else {
 				vs = append(vs, fmt.Sprintf("%s^%d", p.R.names[f.id], f.exp))
 			}
 		}
-		if len(vs) == 0 {
-			sb.WriteString(cs)
-		} else if cs == "1" {
-			sb.WriteString(strings.Join(vs, "·"))
-		} else {
-			sb.WriteString(cs + "·" + strings.Join(vs, "·"))
+		sort.Strings(vs)
+		switch {
+		case len(vs) == 0:
+			ts = append(ts, "\x00"+cs) // the constant term first
+		case cs == "1":
+			ts = append(ts, strings.Join(vs, "·")+"\x01")
+		default:
+			ts = append(ts, strings.Join(vs, "·")+"\x01"+cs)
+		}
+	}
+	sort.Strings(ts)
+	var sb strings.Builder
+	for i, t := range ts {
+		if i > 0 {
+			sb.WriteString(" + ")
+		}
+		switch {
+		case strings.HasPrefix(t, "\x00"):
+			sb.WriteString(t[1:])
+		default:
+			k := strings.Index(t, "\x01")
+			vars, cs := t[:k], t[k+1:]
+			if cs == "" {
+				sb.WriteString(vars)
+			} else {
+				sb.WriteString(cs + "·" + vars)
+			}
 		}
 	}
 	s := sb.String()
